@@ -143,13 +143,15 @@ func TestRegress(t *testing.T) {
 // TestEnumRing: for every capacity N (quick 1..24, thorough 1..64 sharded) log
 // 3N+2 entries with a fixed owner/type pattern; after every Log wait for
 // convergence and compare all 30 filter combinations with the reference ring.
+// The pattern "wild" has every fourth entry logged with a nil owner and every
+// fifth with type 0 (those match only requests with a nil owner resp. type 0).
 func TestEnumRing(t *testing.T) {
 	maxN := 24
 	if hx.Thorough() {
 		maxN = 64
 	}
 	for n := 1 + hx.Shard; n <= maxN; n += hx.NShards {
-		for _, pat := range []string{"cycle", "runs"} {
+		for _, pat := range []string{"cycle", "runs", "wild"} {
 			es := make([]ent, 3*n+2)
 			for i := range es {
 				switch pat {
@@ -158,6 +160,8 @@ func TestEnumRing(t *testing.T) {
 				case "runs": // runs of n+1 equal entries: windows with no match at all
 					k := i / (n + 1)
 					es[i] = ent{1 + k%3, logTypes[(k/3)%4]}
+				case "wild": // owner period 4 (nil, A, B, C), type period 5 (0, 1, 2, 4, 8): all 20 combinations
+					es[i] = ent{i % 4, logTypes0[i%5]}
 				}
 			}
 			c := &Case{Kind: "sweep", N: n, Logs: encodeLogs(es), Desc: pat}
@@ -177,7 +181,7 @@ func TestEnumRing(t *testing.T) {
 			}
 		}
 	}
-	hx.Exhaustive(fmt.Sprintf("capacities 1..%d x every history length 0..3N+2 (every ring write position, empty / partly filled / exactly full / wrapped up to three times) x 2 owner-type patterns x all 30 (owner,type) filters, each after convergence", maxN))
+	hx.Exhaustive(fmt.Sprintf("capacities 1..%d x every history length 0..3N+2 (every ring write position, empty / partly filled / exactly full / wrapped up to three times) x 3 owner-type patterns (one with entries logged with a nil owner / type 0) x all 30 (owner,type) filters, each after convergence", maxN))
 	flushStats()
 }
 
@@ -237,34 +241,42 @@ func genSeq(t *rapid.T) (*Case, string) {
 	case "10N..50N":
 		ln = rapid.IntRange(10*n, 50*n).Draw(t, "len")
 	}
-	// owner/type mix: uniform over the 12 combinations, or dominated by one
+	// alphabet of the Log calls: the 12 combinations with an owner and a type,
+	// or all 20 including entries logged with a nil owner and/or type 0 (those
+	// are ordinary entries: only a request with a nil owner / type 0 matches them)
+	pick, top := comboOrd, 11
+	alpha := rapid.SampledFrom([]string{"ordinary", "wild", "wild"}).Draw(t, "alphabet")
+	if alpha == "wild" {
+		pick, top = combo, nCombos-1
+	}
+	// owner/type mix: uniform over the combinations, or dominated by one
 	// combination so that restrictive filters see sparse matches
 	mix := rapid.SampledFrom([]string{"uniform", "uniform", "skewed", "alternating"}).Draw(t, "mix")
 	es := make([]ent, ln)
 	switch mix {
 	case "uniform":
-		v := rapid.SliceOfN(rapid.IntRange(0, 11), ln, ln).Draw(t, "logs")
+		v := rapid.SliceOfN(rapid.IntRange(0, top), ln, ln).Draw(t, "logs")
 		for i, x := range v {
-			es[i] = ent{1 + x/4, logTypes[x%4]}
+			es[i] = pick(x)
 		}
 	case "skewed":
-		dom := rapid.IntRange(0, 11).Draw(t, "dominant")
+		dom := rapid.IntRange(0, top).Draw(t, "dominant")
 		v := rapid.SliceOfN(rapid.IntRange(0, 59), ln, ln).Draw(t, "logs")
 		for i, x := range v {
-			if x > 11 {
+			if x > top {
 				x = dom
 			}
-			es[i] = ent{1 + x/4, logTypes[x%4]}
+			es[i] = pick(x)
 		}
 	case "alternating":
-		a, b := rapid.IntRange(0, 11).Draw(t, "a"), rapid.IntRange(0, 11).Draw(t, "b")
+		a, b := rapid.IntRange(0, top).Draw(t, "a"), rapid.IntRange(0, top).Draw(t, "b")
 		run := rapid.IntRange(1, n+1).Draw(t, "run")
 		for i := range es {
 			x := a
 			if (i/run)%2 == 1 {
 				x = b
 			}
-			es[i] = ent{1 + x/4, logTypes[x%4]}
+			es[i] = pick(x)
 		}
 	}
 	// Filter calls: positions anywhere, with extra weight on the positions
@@ -281,6 +293,29 @@ func genSeq(t *rapid.T) (*Case, string) {
 	}
 	sort.SliceStable(fl, func(a, b int) bool { return fl[a].After < fl[b].After })
 	return &Case{Kind: "seq", N: n, Logs: encodeLogs(es), Filters: fl}, class + " " + mix
+}
+
+// wildUnderSelective counts the Filter calls of a sequential case that name an
+// owner (resp. a type) while an entry logged with a nil owner (resp. type 0) is
+// among the last N logged: the request must leave that entry out.
+func wildUnderSelective(c *Case) int {
+	L, err := c.history()
+	if err != nil {
+		return 0
+	}
+	k := 0
+	for _, f := range c.Filters {
+		if !f.restrictive() || f.After > len(L) {
+			continue
+		}
+		for s := max(0, f.After-c.N); s < f.After; s++ {
+			if (f.O != 0 && L[s].o == 0) || (f.T != 0 && L[s].t == 0) {
+				k++
+				break
+			}
+		}
+	}
+	return k
 }
 
 func nBucket(n int) string {
@@ -328,6 +363,31 @@ func TestPropSeq(t *testing.T) {
 	})
 }
 
+// genProdOwner: the owner of a concurrent producer; one in five logs with a
+// nil owner (its entries match only requests with a nil owner).
+func genProdOwner(t *rapid.T) int {
+	return rapid.SampledFrom([]int{1, 2, 3, 1, 2, 3, 1, 2, 3, 1, 2, 3, 0, 0, 0}).Draw(t, "owner")
+}
+
+// genLogType: the type of a Log call; one in seven is 0 (matches only requests
+// with type 0).
+var genLogType = rapid.SampledFrom([]int{1, 2, 4, 8, 1, 2, 4, 8, 1, 2, 4, 8, 0, 0})
+
+// wildProds: producers that log with a nil owner or (also) with type 0.
+func wildProds(c *Case) int {
+	k := 0
+	for _, p := range c.Prods {
+		w := p.O == 0
+		for _, ty := range p.Types {
+			w = w || ty == 0
+		}
+		if w {
+			k++
+		}
+	}
+	return k
+}
+
 func genConc(t *rapid.T) (*Case, string) {
 	n := genN(t)
 	np := rapid.IntRange(2, 8).Draw(t, "producers")
@@ -346,9 +406,9 @@ func genConc(t *rapid.T) (*Case, string) {
 			cnt = rapid.IntRange(n, 10*n).Draw(t, "count")
 		}
 		c.Prods = append(c.Prods, Prod{
-			O:     rapid.IntRange(1, 3).Draw(t, "owner"),
+			O:     genProdOwner(t),
 			Count: cnt,
-			Types: rapid.SliceOfN(rapid.SampledFrom(logTypes), 1, 4).Draw(t, "types"),
+			Types: rapid.SliceOfN(genLogType, 1, 4).Draw(t, "types"),
 			Yield: rapid.SampledFrom([]int{0, 0, 1, 3, 17}).Draw(t, "yield"),
 		})
 	}
